@@ -1038,7 +1038,8 @@ impl Gen {
                             let mut all = plain.clone();
                             all.extend(clone.iter());
                             if let Some(b) = pick_key(&mut self.rng, all) {
-                                let t = self.rng.below(NTYPES);
+                                // the tracked value type (10) keeps its value when cloned; keep it out of builders
+                                let t = self.rng.below(10);
                                 let v = if t >= 7 { 0 } else { self.fresh() };
                                 return Op::Cont(COp::BAdd { b, t, v });
                             }
@@ -1047,7 +1048,7 @@ impl Gen {
                             let mut all = plain.clone();
                             all.extend(clone.iter());
                             if let Some(b) = pick_key(&mut self.rng, all) {
-                                let k = self.rng.below(NBUNDLES);
+                                let k = self.rng.below(28);
                                 let bundle = self.bundle_for_types(&bundle_types(k));
                                 return Op::Cont(COp::BAddBundle { b, k, bundle });
                             }
